@@ -252,7 +252,34 @@ func TestVerifC04(t *testing.T) {
 				hdJoinOp(4, 1, 4), hdJoinOp(3, 0, 0), hdJoinOp(1, 2, 1), hdJoinOp(1, 1, 1),
 				{K: "drop", C: 2}, hdJoinOp(3, 1, 3),
 				{K: "connect", C: 5}, {K: "hello", C: 5, Ht: "resume", Id: &hdIdRef{T: "priv", C: 2}}, hdJoinOp(4, 0, 0)}
+			// a member leaves and joins again while an observer stays; the observer processes the leave only after the member is
+			// back (publication order, everything delivered late): it must still end with the member in its view. Twice over,
+			// and with the observer's own notices in between.
+			late := []hdOp{{K: "connect", C: 1}, {K: "connect", C: 2}, {K: "connect", C: 3},
+				{K: "hello", C: 1, B: 0, U: 1}, {K: "hello", C: 2, B: 0, U: 2}, {K: "hello", C: 3, B: 0, U: 3},
+				hdJoinOp(1, 1, 1), {K: "drain"}, hdJoinOp(2, 1, 2), {K: "drain"}, hdJoinOp(3, 1, 3), {K: "drain"},
+				hdJoinOp(2, 0, 0), hdJoinOp(2, 1, 2), {K: "drain"},
+				hdJoinOp(2, 0, 0), hdJoinOp(2, 1, 2), hdJoinOp(3, 0, 0), hdJoinOp(3, 1, 3), {K: "drain"},
+				hdJoinOp(2, 2, 2), hdJoinOp(2, 1, 2), {K: "drain"}}
+			// the same with the leave delivered first and the join after it, each on its own
+			late2 := []hdOp{{K: "connect", C: 1}, {K: "connect", C: 2},
+				{K: "hello", C: 1, B: 0, U: 1}, {K: "hello", C: 2, B: 0, U: 2},
+				hdJoinOp(1, 1, 1), {K: "drain"}, hdJoinOp(2, 1, 2), {K: "drain"},
+				hdJoinOp(2, 0, 0), hdJoinOp(2, 1, 2), {K: "deliversubj", Sk: "room"}, {K: "deliversubj", Sk: "room"}, {K: "drain"},
+				{K: "msg", C: 1, To: &hdRecipient{T: "room"}, Tag: 3}, {K: "drain"}}
+			// a session that joins later sees everybody who is there: ordinary sessions, the internal client and its virtual
+			// sessions, whether they have flags or not
+			virtlate := []hdOp{{K: "connect", C: 1}, {K: "connect", C: 2}, {K: "connect", C: 3}, {K: "connect", C: 4},
+				{K: "hello", C: 1, Ht: "internal", B: 0}, {K: "hello", C: 2, B: 0, U: 2}, {K: "hello", C: 3, B: 0, U: 3}, {K: "hello", C: 4, B: 0, U: 4},
+				hdJoinOp(1, 1, 0), hdJoinOp(2, 1, 2),
+				{K: "internal", C: 1, Ik: "addsession", V: 7, R: 1, U: 9},
+				{K: "internal", C: 1, Ik: "addsession", V: 8, R: 1, U: 8, Flags: 1},
+				hdJoinOp(3, 1, 3),
+				{K: "internal", C: 1, Ik: "updatesession", V: 8, R: 1, HasF: true, Flags: 0},
+				{K: "internal", C: 1, Ik: "updatesession", V: 7, R: 1, HasF: true, Flags: 2},
+				hdJoinOp(4, 1, 4), hdJoinOp(3, 0, 0), hdJoinOp(3, 1, 3)}
 			return []*hdCase{{Id: 4, Mode: 1, Ops: wf}, {Id: 2, Mode: 2, Async: true, Ops: over}, {Id: 3, Mode: 2, Async: true, Ops: over2},
+				{Id: 5, Mode: 2, Async: true, Ops: late}, {Id: 6, Mode: 2, Async: true, Ops: late2}, {Id: 7, Mode: 1, Ops: virtlate},
 				{Id: 0, Mode: 2, Async: true, Ops: ghost, Finding: "C04/observers/cross-subject-reorder"},
 				{Id: 1, Mode: 2, Async: true, Ops: stale, Finding: "C04/observers/stale-joined-notice"}}
 		}})
@@ -641,6 +668,10 @@ func TestVerifC19(t *testing.T) {
 					{K: "api", B: 0, SignAs: 0, R: 1, Api: "incall", Users: []hdApiUser{{Id: &hdIdRef{T: "vpub", C: 1, V: 1}, InCall: 7}, {Id: &hdIdRef{T: "vpub", C: 1, V: 2}, InCall: 7}, {RS: 2, InCall: 7}}},
 					rem(1, 1, 1), addv(1, 3, 1, 7), upd(1, 3, 1, 1, 0), addv(1, 2, 1, 8), upd(1, 2, 1, 0, 1),
 					{K: "internal", C: 1, Ik: "incall", InCall: 1}, {K: "internal", C: 1, Ik: "incall", InCall: 0}, rem(1, 2, 1), rem(1, 3, 1), addv(1, 1, 1, 5)},
+				// sessions that join later see the virtual sessions that are there, with flags or without, also after the flags
+				// went back to none
+				{addv(1, 1, 1, 5), {K: "internal", C: 1, Ik: "addsession", V: 2, R: 1, U: 6, Flags: 1}, {K: "connect", C: 4}, {K: "hello", C: 4, B: 0, U: 4}, hdJoinOp(4, 1, 4),
+					upd(1, 2, 1, 0, 9), {K: "connect", C: 5}, {K: "hello", C: 5, B: 0, U: 5}, hdJoinOp(5, 1, 5), hdJoinOp(2, 0, 0), hdJoinOp(2, 1, 2), rem(1, 1, 1), hdJoinOp(4, 0, 0), hdJoinOp(4, 1, 4)},
 				// two internal clients with the same chosen id; an ordinary client trying
 				{addv(1, 1, 1, 5), hdJoinOp(3, 1, 0), addv(3, 1, 1, 6), rem(3, 1, 1), toV(2, 1, 1, 17), toV(2, 3, 1, 18), addv(2, 1, 1, 7), upd(2, 1, 1, 1, 1), rem(2, 1, 1)},
 			} {
